@@ -3,6 +3,7 @@ import H2V.Lemmas.ConnNoPanicPReach
 import H2V.Lemmas.ConnNoPanicPHist
 import H2V.Lemmas.ConnNoPanicPAll
 import H2V.Lemmas.ConnNoPanicPAll2
+import H2V.Lemmas.ConnNoPanicPAll3
 import H2V.Lemmas.ConnNoPanicPFuel
 /-
   C08 — no peer input (and no use of the documented API) can make an endpoint panic.
@@ -270,6 +271,53 @@ example : BReach (H2V.Lemmas.ConnResetP.run wInit3 [.sendRequest false [] false 
     H2V.Lemmas.ConnCountsP.ErrOK (H2V.Lemmas.ConnResetP.run wInit3 [.sendRequest false [] false none]) ∧ 0 ∈ [0] :=
   ⟨wOps3a_breach, wOps3a_facts, List.mem_singleton.mpr rfl⟩
 
+/-- **No panic on a connection without server push, 40 operations** (partial: `poll_complete`, `send_pending_refusal` and
+    `poll_response` are still missing here, see NOTES).  `NReach s H`: as `BReach`, with the server accept path
+    (`next_incoming` — it adds the handle it returns to `H` —, `take_request`), `clearWakes`, and `recv_eof(true)` WITHOUT
+    hypothesis.  New in the invariant (`Good4`): np-acc's `J` — every stream queued in `pending_accept` has no handle yet,
+    its receive queue starts with the request head, and the number of queued streams the peer has reset is at most
+    `num_remote_reset_streams` (so `assert!(self.num_remote_reset_streams > 0)` of `dec_num_remote_reset_streams` is dead in
+    `next_incoming`) — and ConnRecvP's stream-level receive-window invariant `JF`.  Preconditions that are new:
+    `take_request k` needs the request head still in place (`ReqHead`; `nreach_accept`: it is, right after `next_incoming`,
+    which is the only way server.rs calls it); `handle_error` is not called with `Error::Reset(_, _, Remote)` (connection.rs
+    never does; see the counterexample below); an acknowledged local SETTINGS frame could be applied (answer `Ok`). -/
+theorem no_panic_without_server_push_40_partial {s : Streams} {H : List Nat} (h : NReach s H)
+    (he : H2V.Lemmas.ConnCountsP.ErrOK s) : s.panicked = none ∧ Good4 s H :=
+  ⟨(nreach_good h he).g3.good.npi.np, nreach_good h he⟩
+
+/-- non-vacuity: a server receives `GET /`, accepts it (`next_incoming`, `take_request`), answers with END_STREAM, drops the
+    handle, EOF with `clear_pending_accept` -/
+example : NReach (H2V.Lemmas.ConnResetP.run wInitS wOpsS) [] ∧ H2V.Lemmas.ConnCountsP.ErrOK (H2V.Lemmas.ConnResetP.run wInitS wOpsS) ∧
+    (H2V.Lemmas.ConnResetP.run wInitS wOpsS).panicked = none :=
+  ⟨wOpsS_nreach, wOpsS_facts.1, wOpsS_facts.2⟩
+
+/-- **The server accept path cannot panic**: in every such state `next_incoming` keeps the invariant, and when it returns a
+    stream, `take_request` on it finds the request head (`unreachable!("server stream queue must start with Headers")` is dead). -/
+theorem server_accept_path_cannot_panic {s : Streams} {H : List Nat} (h : NReach s H)
+    (he : H2V.Lemmas.ConnCountsP.ErrOK s) :
+    s.nextIncoming.1.panicked = none ∧
+    ∀ k, s.nextIncoming.2 = some k → ((s.nextIncoming.1).recvTakeRequest k).1.panicked = none ∧
+      ((s.nextIncoming.1).recvTakeRequest k).2.isSome = true := by
+  have g := nreach_good h he
+  obtain ⟨hn, hj, _, hs⟩ := nextIncoming_npi g.g3.good.npi g.j g.g3.good.hok
+  refine ⟨hn.np, fun k hk => ?_⟩
+  obtain ⟨_, _, _, hl, hr, hq⟩ := hs k hk
+  have := recvTakeRequest_npi hn hj hl (by omega) hq
+  exact ⟨this.1.np, this.2.2⟩
+
+/-- non-vacuity: after the request has arrived `next_incoming` returns key 0 -/
+example : (H2V.Lemmas.ConnResetP.run wInitS [.recvHeaders cxReq]).nextIncoming.2 = some 0 := by decide +kernel
+
+/-- **Model-only observation** (not a defect of h2; recorded as the precondition `NotRR` above): with an arbitrary error
+    argument, `Streams::handle_error(Error::Reset(1, NO_ERROR, Initiator::Remote))` marks a queued stream "reset by the
+    peer" without counting it, and the next `next_incoming` fires `assert!(self.num_remote_reset_streams > 0)`.
+    connection.rs passes only GOAWAY / I/O / user errors to `handle_error` (np-conn proves this for the model's
+    `ConnProto`: `ConnP`), and with a GOAWAY error the same history is fine. -/
+theorem handle_error_with_remote_reset_counterexample :
+    (H2V.Lemmas.ConnResetP.run cxInit cxOps).panicked = some "assertion failed: self.num_remote_reset_streams > 0" ∧
+    (H2V.Lemmas.ConnResetP.run cxInit [.recvHeaders cxReq, .handleError (.goAway [] 0 .remote), .nextIncoming]).panicked = none :=
+  handleError_remoteReset_counterexample
+
 /-- **The invariant behind it, in every reachable state**: besides `panicked = none`, (a) `find_mut(id)` hands out
     only keys that resolve, to an entry with that stream id, and the id map is a map (`IdsOK`); (b) the good-state
     conditions `NPQ` that the per-function theorems above assume. -/
@@ -361,3 +409,6 @@ end H2V.Props.C08NoPanic
 #print axioms H2V.Props.C08NoPanic.remaining_silent_loops_terminate
 #print axioms H2V.Props.C08NoPanic.no_panic_without_server_push_partial
 #print axioms H2V.Props.C08NoPanic.poll_pushed_cannot_panic_without_push
+#print axioms H2V.Props.C08NoPanic.no_panic_without_server_push_40_partial
+#print axioms H2V.Props.C08NoPanic.server_accept_path_cannot_panic
+#print axioms H2V.Props.C08NoPanic.handle_error_with_remote_reset_counterexample
